@@ -214,6 +214,60 @@ func TestC14(t *testing.T) {
 			}
 		}
 	})
+	// (2b) lengths of the form m*2^k (m = 1, 3, 5, 7) and their neighbours: block sizes, stripes, table sizes
+	t.Run("structured-lengths", func(t *testing.T) {
+		maxK := 20
+		if Thorough() {
+			maxK = 23
+		}
+		i := 0
+		for k := 10; k <= maxK; k++ {
+			for _, m := range []int{1, 3, 5, 7} {
+				for _, d := range []int{0, -1, 1} {
+					i++
+					if !MyShare(i) {
+						continue
+					}
+					n := m<<uint(k) + d
+					if n > 1<<uint(maxK+1) {
+						continue
+					}
+					runs := []Run{{byte(0x31 + k), n / 3}, {0xC7, n/3 + n%3}, {byte(m), n / 3}}
+					for _, algo := range c14Algos {
+						c := &CaseC14{Algo: algo, Runs: runs}
+						Col.Case(Hash64([]byte(algo), []byte(fmt.Sprint(n))), true, "structured-length", "algo:"+algo)
+						if !Direct(t, "C14", "c14", fmt.Sprintf("len/%d/%s", n, algo), c, oracleC14) {
+							return
+						}
+					}
+				}
+			}
+		}
+		Col.MarkExhaustive(fmt.Sprintf("lengths m*2^k and +-1 for m in {1,3,5,7}, k=10..%d, 4 algorithms", maxK))
+	})
+	// (2c) complete frame images (header, body, trailer) of every protocol as checksum input
+	t.Run("frame-images", func(t *testing.T) {
+		CheckProp(t, "C14", "c14", "frame-images", func(rt *rapid.T) *CaseC14 {
+			ft := frameOf(rapid.SampledFrom(ModuleIDs).Draw(rt, "module"))
+			o := GenOpts{Mode: Canonical, MaxList: 300, BigProb: 20}
+			v, _ := GenValue(rt, ft, o)
+			w := Render(v, nil).Bytes
+			switch rapid.IntRange(0, 2).Draw(rt, "part") {
+			case 1: // without the trailer (what the encoder hands to the service)
+				if len(w) >= 4 {
+					w = w[:len(w)-4]
+				}
+			case 2: // two frames back to back
+				w = append(append([]byte{}, w...), w...)
+			}
+			c := &CaseC14{Algo: rapid.SampledFrom(c14Algos).Draw(rt, "algo"), Raw: w}
+			if c.Raw == nil {
+				c.Raw = HexBytes{}
+			}
+			c14Record(c, w, "frame-image")
+			return c
+		}, oracleC14)
+	})
 	// (3) generated
 	maxRun := 1 << 16
 	if Thorough() {
